@@ -93,6 +93,9 @@ type c3Driver struct {
 	drT     map[string]bool
 	nown    int
 	skipped int
+	// since the last guardian-set change a correctly signed, decodable request / heartbeat was accepted (the verifier's verdict on such
+	// a message is a function of the message and the set: a later refusal means dropped traffic left something behind)
+	reqOK, hbOK bool
 }
 
 func c3NewDriver(t *testing.T, id int, shape string) *c3Driver {
@@ -303,6 +306,7 @@ func (d *c3Driver) opSet(keys []common.Address, idx uint32, note string) {
 			}
 		}()
 		d.gst.Set(&node_common.GuardianSet{Keys: keys, Index: idx})
+		d.reqOK, d.hbOK = false, false
 	}()
 	st.Upd = d.drain()
 	d.finish(c3Op{K: "set", Keys: ks, Note: note}, st)
@@ -437,6 +441,12 @@ func (d *c3Driver) opReq(addr, payload, sig []byte, note string) {
 		if !dec || ret == nil || !proto.Equal(ret, want) {
 			st.Mon = append(st.Mon, "forwarded request differs from the decoded signed payload")
 		}
+	}
+	// (the code's length floor is 34 signed bytes; 33 is refused, which the statement allows)
+	if why == "" && dec && forwarded {
+		d.reqOK = true
+	} else if why == "" && dec && len(pre) >= 34 && !forwarded && d.reqOK && (len(st.Res) < 5 || st.Res[:5] != "panic") {
+		st.Mon = append(st.Mon, fmt.Sprintf("dropped traffic left a side effect in the verifier: a correctly signed, decodable observation request of a current guardian is refused (%s %s) although such a request was accepted earlier under the same guardian set", st.Res, st.Err))
 	}
 	d.finish(c3Op{K: "req", Addr: hex.EncodeToString(addr), Payload: hex.EncodeToString(payload), Sig: hex.EncodeToString(sig), Note: note}, st)
 }
